@@ -155,6 +155,10 @@ PIN_SPARC_VALID = (
     "if let MinidumpContextValidity::Some(ref which) = valid { which.contains(reg) || self .memoize_register(reg) "
     ".is_some_and(|canonical| which.contains(canonical)) } else { self.memoize_register(reg).is_some() }"
 )
+PIN_SPARC_VALID_CANON = (
+    "if let MinidumpContextValidity::Some(ref which) = valid { which.contains(reg) || self.memoize_register(reg).is_some_and(|canonical| { "
+    "which .iter() .any(|other| self.memoize_register(other) == Some(canonical)) }) } else { self.memoize_register(reg).is_some() }"
+)
 PIN_MD_REGISTERS = (
     "self.general_purpose_registers() .iter() .map(move |&reg| (reg, self.get_register_always(reg)))"
 )
@@ -317,6 +321,8 @@ def parse_memoize(body, what):
 def parse_is_valid(body, what):
     if norm(body) == PIN_SPARC_VALID:
         return ("sparcMemo",)
+    if norm(body) == PIN_SPARC_VALID_CANON:
+        return ("sparcCanon",)
     m = re.fullmatch(
         r"\s*if let MinidumpContextValidity::Some\(ref which\) = valid \{\s*(match reg \{.*\})\s*\}"
         r" else \{\s*self\.memoize_register\(reg\)\.is_some\(\)\s*\}\s*", body, flags=re.S)
@@ -674,7 +680,7 @@ def translate():
     if any(impls[c]["memo"] == ("sparcIndex",) for c in ctxs) or "fn sparc_alias_index" in src:
         sparc = parse_sparc_alias(src)
     for c in ctxs:
-        if (impls[c]["valid"] == ("sparcMemo",) or impls[c]["memo"] == ("sparcIndex",)) and c != "SPARC":
+        if (impls[c]["valid"] in (("sparcMemo",), ("sparcCanon",)) or impls[c]["memo"] == ("sparcIndex",)) and c != "SPARC":
             fail(f"CONTEXT_{c} uses the SPARC alias helper")
     if sparc is None:
         sparc = {"len": 2, "lo": "0", "hi": "0", "bases": []}
@@ -696,13 +702,37 @@ def translate():
         check_ref(mdc["spCell"][c][0], f"get_stack_pointer {c}")
         check_ref(mdc["ipCell"][c][0], f"get_instruction_pointer {c}")
 
-    # ------------------------------------------------------------------ emit
+    return dict(ctxs=ctxs, ctx_var=ctx_var, enums=enums, structs=structs, impls=impls, sparc=sparc, mdc=mdc)
+
+
+def blank_tables():
+    """What is written when the translation FAILS: the same declarations with EMPTY tables and
+    `translationOk := false`, so that (a) nothing can be proved against the tables of an earlier,
+    successful translation, (b) the theorem `translation_ok` (and `sp_ip_cells`) fails, and (c) the
+    model driver — shared by all properties — still compiles."""
+    ctxs = EXPECTED_CTX
+    impls = {c: {"bits": 0, "registers": [], "get": [], "set": [], "memo": ("default",), "valid": ("default",),
+                 "sp": "", "ip": ""} for c in ctxs}
+    mdc = {"spCell": {c: (("", None), False) for c in ctxs}, "ipCell": {c: (("", None), False) for c in ctxs},
+           "gprOf": {c: c for c in ctxs}, "into": {c: False for c in ctxs}}
+    return dict(ctxs=ctxs, ctx_var={c: "" for c in ctxs}, enums={}, structs={c: [] for c in ctxs}, impls=impls,
+                sparc={"len": 2, "lo": "0", "hi": "0", "bases": []}, mdc=mdc)
+
+
+def emit(d, ok, why=""):
+    ctxs, ctx_var, enums, structs, impls, sparc, mdc = (d[k] for k in ("ctxs", "ctx_var", "enums", "structs", "impls", "sparc", "mdc"))
     o = []
+    if not ok:
+        o.append("/- TRANSLATION FAILED — these are BLANK tables (see `translationOk`). Reason:\n   "
+                 + why.replace("-/", "- /")[:1500] + "\n-/")
     o.append("/-\n  GENERATED by translators/regs.py — DO NOT EDIT.  Regenerated on every ./check run from\n"
              "    minidump/src/context.rs   (impl CpuContext for md::CONTEXT_*, sparc_alias_index, MinidumpContext dispatch)\n"
              "    minidump-common/src/format.rs   (struct CONTEXT_* fields, *RegisterNumbers)\n"
              "  Purely syntactic tables; interpretation lives in MdModel/Regs.lean.\n-/\n"
              "namespace MdModel.Gen.Regs\n")
+    o.append("/-- `true` iff the tables below are the result of a successful translation of the CURRENT source;\n"
+             "    a failed translation writes blank tables and `false` (theorem `translation_ok` then fails) -/\n"
+             "def translationOk : Bool := " + ("true" if ok else "false") + "\n")
     o.append("/-- the nine CPU context types (`md::CONTEXT_<name>`) -/\ninductive Ctx where\n"
              + "".join(f"  | {c}\n" for c in ctxs) + "  deriving DecidableEq, Repr\n")
     o.append("def Ctx.all : List Ctx := [" + ", ".join("." + c for c in ctxs) + "]\n")
@@ -721,7 +751,8 @@ def translate():
     o.append("/-- shape of the `Some(which)` branch of `register_is_valid` -/\ninductive ValidRule where\n"
              "  | default                                              -- which.contains(reg)\n"
              "  | groups (gs : List (List String × List String))       -- `pats => which.contains(a) || which.contains(b)`, then which.contains(reg)\n"
-             "  | sparcMemo                                            -- which.contains(reg) || memoize_register(reg).is_some_and(|c| which.contains(c))\n"
+             "  | sparcMemo                                            -- which.contains(reg) || memoize_register(reg).is_some_and(|c| which.contains(c))   (before fix 4de673d)\n"
+             "  | sparcCanon                                           -- which.contains(reg) || memoize_register(reg).is_some_and(|c| which.iter().any(|o| memoize_register(o) == Some(c)))\n"
              "  deriving Repr\n")
     o.append("/-- parameters read off `fn sparc_alias_index` -/\nstructure SparcAlias where\n"
              "  len : Nat\n  digitLo : Char\n  digitHi : Char\n  bases : List (Char × Nat)\n  deriving Repr\n")
@@ -757,6 +788,8 @@ def translate():
             return ".default"
         if r[0] == "sparcMemo":
             return ".sparcMemo"
+        if r[0] == "sparcCanon":
+            return ".sparcCanon"
         return ".groups [" + ", ".join(
             "([" + ", ".join(lean_str(x) for x in ps) + "], [" + ", ".join(lean_str(x) for x in ns) + "])" for ps, ns in r[1]) + "]"
 
@@ -775,24 +808,46 @@ def translate():
     o.append("/-- `MinidumpContext::get_register_always` widens with `.into()` -/\n"
              + per_ctx("widens", "Bool", lambda c: "true" if mdc["into"][c] else "false", ctxs))
     o.append("end MdModel.Gen.Regs\n")
-    text = "\n".join(o)
+    return "\n".join(o)
+
+
+def write_out(text):
+    """atomic replace; returns True when the file content changed"""
     os.makedirs(os.path.dirname(OUT), exist_ok=True)
     old = open(OUT, encoding="utf-8").read() if os.path.exists(OUT) else None
-    if old != text:
-        with open(OUT + ".tmp", "w", encoding="utf-8") as f:
-            f.write(text)
-        os.replace(OUT + ".tmp", OUT)
+    if old == text:
+        return False
+    with open(OUT + ".tmp", "w", encoding="utf-8") as f:
+        f.write(text)
+    os.replace(OUT + ".tmp", OUT)
+    return True
+
+
+def main():
+    try:
+        d = translate()
+        text = emit(d, True)
+    except (Fail, OSError, ValueError) as e:
+        msg = str(e) if isinstance(e, Fail) else repr(e)
+        # never leave the tables of an earlier translation behind: the theorems would be checked against
+        # what the source said THEN. Blank tables + translationOk := false make the proof build fail too.
+        try:
+            write_out(emit(blank_tables(), False, msg))
+        except OSError as e2:
+            try:
+                os.unlink(OUT)
+            except OSError:
+                pass
+            print(f"regs.py: could not write blank tables: {e2!r}", file=sys.stderr)
+        print(f"regs.py: TRANSLATION FAILED (source shape not recognised; blank tables written): {msg}", file=sys.stderr)
+        return 1
+    changed = write_out(text)
+    ctxs, impls = d["ctxs"], d["impls"]
     print(f"regs.py: {len(ctxs)} contexts, {sum(len(impls[c]['get']) for c in ctxs)} getter arms, "
-          f"{sum(len(impls[c]['set']) for c in ctxs)} setter arms, {len(enums)} enums -> {os.path.relpath(OUT)}"
-          + (" (unchanged)" if old == text else ""))
+          f"{sum(len(impls[c]['set']) for c in ctxs)} setter arms, {len(d['enums'])} enums -> {os.path.relpath(OUT)}"
+          + ("" if changed else " (unchanged)"))
+    return 0
 
 
 if __name__ == "__main__":
-    try:
-        translate()
-    except Fail as e:
-        print(f"regs.py: TRANSLATION FAILED (source shape not recognised): {e}", file=sys.stderr)
-        sys.exit(1)
-    except (OSError, ValueError) as e:
-        print(f"regs.py: TRANSLATION FAILED: {e!r}", file=sys.stderr)
-        sys.exit(1)
+    sys.exit(main())
